@@ -8,13 +8,40 @@ sys.path.insert(0, os.path.dirname(os.path.abspath(__file__)))
 import vlib
 from vlib import VERIF, RUN
 
-BASES = [  # (name, tla, cfg template constants)
-    ("2sync", "MC2.tla", dict(Node="{1, 2}", MCCl="Cl2Sync", Actors="ActorsTwo", Bound="BoundS2", Psz="Psz1", CC="NoCCs")),
-    ("2async", "MC2.tla", dict(Node="{1, 2}", MCCl="Cl2Async", Actors="ActorsTwo", Bound="BoundS2", Psz="Psz1", CC="NoCCs")),
-    ("2prevote", "MC2.tla", dict(Node="{1, 2}", MCCl="Cl2PreVote", Actors="ActorsTwo", Bound="BoundS2", Psz="Psz1", CC="NoCCs")),
-    ("3sync", "MC3.tla", dict(Node="{1, 2, 3}", MCCl="Cl3Sync", Actors="Actors3", Bound="Bound3", Psz="Psz3", CC="NoCCs3")),
-    ("3async", "MC3.tla", dict(Node="{1, 2, 3}", MCCl="Cl3Async", Actors="Actors3", Bound="Bound3", Psz="Psz3", CC="NoCCs3")),
-]
+BASES = {  # name -> (tla, cfg template constants)
+    "2sync": ("MC2.tla", dict(Node="{1, 2}", MCCl="Cl2Sync", Actors="ActorsTwo", Bound="BoundS2", Psz="Psz1", CC="NoCCs")),
+    "2async": ("MC2.tla", dict(Node="{1, 2}", MCCl="Cl2Async", Actors="ActorsTwo", Bound="BoundS2", Psz="Psz1", CC="NoCCs")),
+    "2prevote": ("MC2.tla", dict(Node="{1, 2}", MCCl="Cl2PreVote", Actors="ActorsTwo", Bound="BoundS2", Psz="Psz1", CC="NoCCs")),
+    "3sync": ("MC3.tla", dict(Node="{1, 2, 3}", MCCl="Cl3Sync", Actors="Actors3", Bound="Bound3", Psz="Psz3", CC="NoCCs3")),
+    "3async": ("MC3.tla", dict(Node="{1, 2, 3}", MCCl="Cl3Async", Actors="Actors3", Bound="Bound3", Psz="Psz3", CC="NoCCs3")),
+    "reads": ("MCF.tla", dict(Node="{1, 2}", MCCl="ClReads", Actors="ActorsReads", Bound="BoundReads", Psz="PszF", CC="NoCCsF")),
+    "reads1": ("MCF.tla", dict(Node="{1, 2}", MCCl="ClReads", Actors="ActorsReads1", Bound="BoundReads1", Psz="PszF", CC="NoCCsF")),
+    "conf": ("MCF.tla", dict(Node="{1, 2, 3}", MCCl="ClConf", Actors="ActorsConf", Bound="BoundConf", Psz="PszF", CC="CCsConf")),
+    "snap": ("MCF.tla", dict(Node="{1, 2, 3}", MCCl="ClSnap", Actors="ActorsSnap", Bound="BoundSnap", Psz="PszF", CC="NoCCsF")),
+    "tick": ("MCF.tla", dict(Node="{1, 2}", MCCl="ClTick", Actors="ActorsTick", Bound="BoundTick", Psz="PszF", CC="NoCCsF")),
+    "xfer": ("MCF.tla", dict(Node="{1, 2}", MCCl="ClXfer", Actors="ActorsXfer", Bound="BoundXfer", Psz="PszF", CC="NoCCsF")),
+    "flow": ("MCF.tla", dict(Node="{1, 2}", MCCl="ClFlow", Actors="ActorsFlow", Bound="BoundFlow", Psz="PszF", CC="NoCCsF")),
+}
+DEFAULT = ["2sync", "2async", "3sync"]
+# where each guard's situation can arise at all
+GMAP = {
+    "ro_wait_own_term_commit": ["reads1", "reads"], "singleton_read_needs_own_vote": ["reads1", "reads"],
+    "pending_conf_gate": ["conf"], "joint_gate": ["conf"], "leave_joint_gate": ["conf"], "auto_leave": ["conf"], "hup_unapplied_conf": ["conf"],
+    "restore_member_only": ["snap"], "restore_match_fast_forward": ["snap"], "restore_index_le_commit": ["snap"],
+    "snapshot_pauses_append": ["snap"], "snapshot_blocks_apply": ["snap"],
+    "lease_ignores_vote": ["tick", "2prevote"], "check_quorum_step_down": ["tick"], "prevote_grant_for_this_term": ["tick", "2prevote"],
+    "inflights_full": ["flow"], "uncommitted_size_limit": ["flow"],
+    "stable_to_term_match": ["2async", "3async"], "resp_after_append": ["2async", "3async"],
+    "leader_after_own_vote_durable": ["2async", "3async"],
+    "ro_quorum_ack": ["reads1", "reads"], "ro_reset_on_term_change": ["reads"],
+    "commit_quorum_joint": ["conf"], "new_leader_pending_conf": ["conf"],
+    "self_ack_after_persist": ["2async", "3async"], "self_vote_after_persist": ["2async", "3async"], "apply_stable_only_async": ["2async", "3async"],
+    "max_size_per_msg": ["flow"], "prevote_keeps_term": ["tick", "2prevote"],
+    "heartbeat_commit_clamp": ["3sync", "2sync"], "follower_commit_clamp": ["3sync", "2sync"], "conflict_from_first_mismatch": ["3sync", "2sync"],
+    "commit_current_term": ["3sync", "2sync"],
+    "append_prev_match": ["3sync", "2sync", "xfer"], "append_below_commit": ["3sync", "2sync"], "commit_monotone": ["3sync", "2sync"],
+}
+INVS = re.findall(r"^(C\d\d_\w+) ==", open(os.path.join(VERIF, "spec", "RaftProps.tla")).read(), re.M)
 CFG = """SPECIFICATION Spec
 CONSTANTS
   Node = %(Node)s
@@ -24,7 +51,8 @@ CONSTANTS
   CCSet <- %(CC)s
   Actors <- %(Actors)s
   Bound <- %(Bound)s
-INVARIANT AllInvariants
+INVARIANTS
+  """ + "\n  ".join(INVS) + """
 CONSTRAINT StateBound
 VIEW View
 CHECK_DEADLOCK FALSE
@@ -69,6 +97,8 @@ def to_schedule(trace, base):
             s["keep"] = a.get("keep", False)
             s["sel"] = {"type": m["type"], "from": m["from"], "to": m["to"], "term": m["term"], "index": m["index"],
                         "reject": m["reject"], "nents": len(m["entries"])}
+        elif name == "AppendThread":
+            s["keep"] = a.get("keep", False)
         elif name == "CrashInAppend":
             s["k"] = a["k"]
         elif name == "Restart":
@@ -83,7 +113,7 @@ def main():
     guards = sys.argv[1:]
     if not guards:
         txt = open(os.path.join(VERIF, "spec", "RaftCore.tla")).read()
-        guards = sorted(set(re.findall(r'(?:Guard|Weak)\("([a-z_]+)"', txt)))
+        guards = sorted(set(re.findall(r'(?:Guard|Weak|Block)\("([a-z_]+)"', txt)))
     work = os.path.join(RUN, "gc%d" % os.getpid())
     os.makedirs(work)
     os.makedirs(os.path.join(VERIF, "corpus"), exist_ok=True)
@@ -93,7 +123,8 @@ def main():
         sd = vlib.spec_dir(work)
         for g in guards:
             killed = []
-            for base, tla, consts in BASES:
+            for base in GMAP.get(g, DEFAULT):
+                tla, consts = BASES[base]
                 cfg = "G_%s_%s.cfg" % (g, base)
                 open(os.path.join(sd, cfg), "w").write(CFG % dict(consts, guard=g))
                 tj = os.path.join(work, "trace_%s_%s.json" % (g, base))
@@ -101,6 +132,7 @@ def main():
                 if r["violated"] and os.path.exists(tj):
                     sched = to_schedule(json.load(open(tj)), base)
                     sched["guard"] = g
+                    sched["violates"] = r["violated"]
                     sched["model_states"] = r["distinct"]
                     out = os.path.join(VERIF, "corpus", "G_%s__%s.json" % (g, base))
                     json.dump(sched, open(out, "w"), indent=0)
@@ -111,7 +143,10 @@ def main():
             print(g, killed if killed else "NOT KILLED within bounds", flush=True)
     finally:
         shutil.rmtree(work, ignore_errors=True)
-    json.dump(report, open(os.path.join(VERIF, "corpus", "GUARDS.json"), "w"), indent=1)
+    gfile = os.path.join(VERIF, "corpus", "GUARDS.json")
+    old = json.load(open(gfile)) if os.path.exists(gfile) else {}
+    old.update(report)
+    json.dump(old, open(gfile, "w"), indent=1, sort_keys=True)
 
 
 if __name__ == "__main__":
